@@ -41,6 +41,7 @@ ABI_WEIGHTS = [("x64-elf", 45), ("arm64-elf", 25), ("mips32-elf", 20), ("x64-pe"
 # avoid knob looks at this table (it then pins the column with an explicit .cfi_return_column at the startproc
 # location); the oracle never does.
 LIB_DEFAULT_RA = {"arm64-elf": 32, "mips32-elf": 32}
+FIXED_TRIGGERS = ["restore", "ra", "order"]
 KNOWN = ["restore", "rel", "ra", "order"]  # generator knobs, one per known trigger
 
 
@@ -707,6 +708,10 @@ class _Gen:
         rk = streams.get("gen.knobs")
         self.avoid = rk.random() < float(params.get("avoid_known", 0.8))
         self.expose = [] if self.avoid else [rk.choice(KNOWN)]
+        # triggers of findings that have been FIXED in the library are ordinary
+        # workload again (restore: F14, ra: F17/F18, order: F19); only the open
+        # one (rel: F15/F16) is still steered around
+        self.expose = sorted(set(self.expose) | set(FIXED_TRIGGERS))
         self.ref = {"rel_offset": params.get("rel_offset_semantics", "dwarf")}
         self.m = cfi_ref.Machine(self.abi, self.ref)
         self.events = []  # (group, name, ops, sym, tag)
